@@ -33,6 +33,18 @@ def gen_string(rng):
         if len(d["text"]) > 24:
             d["text"] = d["text"][:24]
         return "text", decl_yara("a", d), d, [e for e, _ in encodings(d)] or [bytes.fromhex(d["text"])]
+    if k == 4 and rng.chance(1, 2):
+        # several literals whose atoms sit at different positions: a smaller start is confirmed AFTER a larger one
+        # (out-of-order insertion while the list is at its limit)
+        which = rng.below(3)
+        if which == 0:
+            return "other", "$a = /(abcd|xyabcdef)/", None, [b"xyabcdef", b"abcd", b"xyabcdef xyabcdef", b"xyabcd"]
+        if which == 1:
+            return "other", "$a = { ( 61 62 63 64 | 78 79 61 62 63 64 65 66 ) }", None, [b"xyabcdef", b"abcd ", b"xyabcdefabcd"]
+        d = {"text": b"\x00\x00\x00\x00ab".hex(), "ascii": True, "wide": False, "nocase": False, "fullword": False,
+             "xor": [0, 1], "b64": None}
+        return "text", decl_yara("a", d), d, [b"\x01\x01\x01\x01\x60\x63\x00\x00\x00\x00ab", b"\x00\x00\x00\x00ab",
+                                              b"\x01\x01\x01\x01\x60\x63"]
     if k == 5:      # Atomized, ONE atom hit yields a BATCH of matches (AcMatchStatus::Multiple): the limit
         # can be crossed inside the batch
         which = rng.below(4)
@@ -127,7 +139,11 @@ class C14(Prop):
             "include patterns whose single atom hit yields a batch of matches (`/a.{0,2}bb/`, `{ 61 [0-2] 62 62 }`) "
             "so that the limit (1, 2, N-1 ...) is crossed inside one batch; for text strings every reported record "
             "must be an occurrence of one of THAT string's encodings (Spec/TextSpec.v), for the other kinds a member "
-            "of U. ScanParams::callback_events is a generated dimension (RULE_MATCH, RULE_NO_MATCH, "
+            "of U. 1/8 of the cases run the limited scan in fast fragmented mode with the rule decidable without its "
+            "strings (`true or $a`, nothing else needing strings): the list must still coincide with the unlimited one "
+            "when it fits; strings with several literals whose atoms sit at different positions "
+            "(`/(abcd|xyabcdef)/`, xor texts) give out-of-order insertions at the limit. "
+            "ScanParams::callback_events is a generated dimension (RULE_MATCH, RULE_NO_MATCH, "
             "MODULE_IMPORT, STRING_REACHED_MATCH_LIMIT subsets) with both the list and the callback API for the run "
             "under the limit (at most one limit event per string). Layouts include the same page mapped several times (matches at equal "
             "region-relative offsets in consecutive regions); for text strings the unlimited list must be complete "
@@ -203,11 +219,19 @@ class C14(Prop):
                     addr = r["start"] + len(r["hex"]) // 2
         # ScanParams::callback_events as a dimension (RULE_MATCH 1, RULE_NO_MATCH 2, MODULE_IMPORT 4,
         # STRING_REACHED_MATCH_LIMIT 16), list and callback APIs
+        noscan = rng.chance(1, 8)
+        if noscan:
+            # fast fragmented mode, the rule under test decidable without its strings (`true or $a`), nothing else in
+            # the rule set needs strings: with full matches requested the list must still be there
+            if "mem" in inp:
+                inp = {"regions": [{"start": rng.choice([0, 4096]), "hex": inp["mem"], "fail": False}]}
+            ctxt = None
         ev = rng.choice([None, None, 1, 1 | 16, 1 | 16, 1 | 2 | 16, 1 | 4 | 16, 1 | 2])
         api = "callback" if (ev is not None and rng.chance(1, 2)) else "list"
-        return {"kind": kind, "decl": decl, "tdecl": d, "input": inp, "context": ctxt, "events": ev, "api": api,
+        return {"kind": kind, "decl": decl, "tdecl": d, "input": inp, "context": ctxt, "events": ev, "api": api, "noscan_shape": noscan,
                 "maxlen_sel": rng.below(7), "lim_rel": rng.choice([-2, -1, 0, 1, 2, None, "one", "two"]),
-                "profile": rng.choice(["speed", "memory"]), "mode": rng.choice([None, "fast", "single_pass"])}
+                "profile": rng.choice(["speed", "memory"]),
+                "mode": "fast" if noscan else rng.choice([None, "fast", "single_pass"])}
 
     def generate(self, ctx, rng, n):
         return [self.gen_case(rng.fork("c%d" % i)) for i in range(n)]
@@ -229,8 +253,9 @@ class C14(Prop):
 
     def hcase(self, case, params, probe=None, context=False):
         """the string alone (reference runs), or inside its rule set (the run under test)"""
-        rules = "rule r { strings: %s condition: #a >= 0 }" % case["decl"]
-        if probe is not None:
+        ns_shape = context and case.get("noscan_shape")
+        rules = "rule r { strings: %s condition: %s }" % (case["decl"], "true or $a" if ns_shape else "#a >= 0")
+        if probe is not None and not ns_shape:
             rules += " rule probe { strings: %s condition: #a == %d }" % (case["decl"], probe)
         p = dict(params)
         p["compute_full_matches"] = True
@@ -284,6 +309,7 @@ class C14(Prop):
             ctx.count("maxlen_sel=%d" % c["maxlen_sel"])
             ctx.count("context=%s" % ("none" if not c.get("context") else "rule set"))
             ctx.count("events=%s api=%s" % (c.get("events"), c.get("api", "list")))
+            ctx.count("shape=%s" % ("decidable-without-strings (fast mode)" if c.get("noscan_shape") else "needs-strings"))
         return outs
 
     def term(self, ctx, case, out):
@@ -301,7 +327,7 @@ class C14(Prop):
             kind = "other"
         u = string_matches(a, "r", "a")
         t = string_matches(b, "r", "a")
-        probe = any(r["name"] == "probe" and r.get("matched", True) for r in b["rules"]) \
+        probe = (case.get("noscan_shape") or any(r["name"] == "probe" and r.get("matched", True) for r in b["rules"])) \
             and b.get("limit_events_once", True)
         gk = ("(KText %s)" % g_decl(case["tdecl"]) if kind == "text" else "KRaw" if kind == "raw"
               else "KRawNullable" if kind == "rawnull" else "KOther")
